@@ -27,6 +27,7 @@ type SQLEvent struct {
 	CallerGone bool // the caller's context had already ended when the statement was delivered
 	It         *iterRec // state-handler invocation of Src that was open when the statement was issued (nil: none)
 	Aux        string   // for replica-status reads: what the server showed (role, threads)
+	CleanWrt   []string // for replica-status reads: servers whose holdings contain this server's executed set, if it showed no replication error
 }
 
 // toldOK: the issuing process was told that the statement succeeded
@@ -338,6 +339,9 @@ func (s *Sim) deliverSQL(c *call, flt string) {
 	res, deferred := s.mysql.exec(sv, c)
 	ev.After = sv.stateSig()
 	ev.Applied = true
+	if strings.HasPrefix(c.query, "SELECT @@read_only") {
+		ev.Aux = fmt.Sprintf("ro=%v", sv.ReadOnly)
+	}
 	if strings.HasPrefix(c.query, "SHOW SLAVE STATUS") || strings.HasPrefix(c.query, "SHOW REPLICA STATUS") {
 		if !sv.HasChannel {
 			ev.Aux = "master"
@@ -345,6 +349,15 @@ func (s *Sim) deliverSQL(c *call, flt string) {
 			ev.Aux = "running"
 		} else {
 			ev.Aux = "notrunning"
+		}
+		if sv.HasChannel && sv.LastSQLErrno == 0 && (sv.LastIOErrno == 0 || sv.LastIOErrno == 2003) {
+			for _, o := range s.mysql.sorted() {
+				// what the server holds durably: visible executed set plus binlogged commits still
+				// waiting for their semi-sync ACK
+				if o != sv && sv.Executed.Union(sv.BinlogSet).SubsetOf(o.Holds()) {
+					ev.CleanWrt = append(ev.CleanWrt, o.Name)
+				}
+			}
 		}
 	}
 	ev.Effective = ev.Before != ev.After
